@@ -227,6 +227,11 @@ def make_ops(circular):
         ops["addP3"] = lambda rec: rec.add_protocluster(
             Protocluster(F(40, 46, 1), C([F(34, 60, 1), F(0, 4, 1)]), "tool", "p", 6, 18, "rule", "cat"))
         ops["addS2"] = lambda rec: rec.add_subregion(SubRegion(C([F(50, 60, 1), F(0, 12, 1)]), "t", "s2"))
+        # a protocluster whose core itself crosses the origin (holding only g4), with genes of the defining type for its product
+        # (g1, g2, g3) only in its neighbourhood; it shares no defining gene with P1, so candidate kinds do not depend on when
+        # genes are added
+        ops["addP4"] = lambda rec: rec.add_protocluster(
+            Protocluster(C([F(57, 60, 1), F(0, 3, 1)]), C([F(39, 60, 1), F(0, 27, 1)]), "tool", "p", 6, 18, "rule", "cat"))
     else:
         ops["addP3"] = lambda rec: rec.add_protocluster(Protocluster(F(40, 46, 1), F(34, 52, 1), "tool", "p", 6, 6, "rule", "cat"))
         ops["addS2"] = lambda rec: rec.add_subregion(SubRegion(F(50, 60, 1), "t", "s2"))
